@@ -69,6 +69,20 @@ def run(chk):
     else:
         chk.violation("C08.balance", rc, "self._buffer_offset += n", "(len(first_buffer) - offset > n)", "partial reads do not advance the front-buffer offset consistently")
 
+    # ---- headoffset: the front buffer is partly consumed; its bytes are only meaningful together with _buffer_offset ----
+    nh = 0
+    for name, m in sr.methods.items():
+        heads = [n for n in ast.walk(m.node) if isinstance(n, ast.Subscript) and isinstance(n.slice, ast.Constant) and n.slice.value == 0 and isinstance(n.ctx, ast.Load)
+                 and (norm.raw(n.value) == "self._buffer" or (isinstance(n.value, ast.Name) and any(v is not None and norm.raw(v) == "self._buffer" for _d, v in norm.fn_defs(m.node).defs.get(n.value.id, []))))]
+        if not heads:
+            continue
+        nh += 1
+        if any(isinstance(n, ast.Attribute) and n.attr == "_buffer_offset" for n in ast.walk(m.node)):
+            chk.ok("C08.headoffset", heads[0], f"{name}(): reads the front buffer together with _buffer_offset")
+        else:
+            chk.violation("C08.headoffset", heads[0], K.short(heads[0]), "self._buffer_offset",
+                          f"{name}(): inspects the front buffer without its consumed-prefix offset: after a partial read the remainder is shorter than len(buffer[0]), so a size decision (e.g. `the head alone covers n bytes`) is wrong and a read stops short of a chunk boundary")
+    chk.expect_count("C08.headoffset", nh, 3, "functions reading the front buffer")
     # ---- wake ----------------------------------------------------------------------------------------------
     n = 0
     n += K.wakes_waiter(chk, "C08.wake", repo, fd, ["self._buffer.append($D)"], "data arrival")
